@@ -1841,6 +1841,8 @@ class VM:
             offset = to_integer(args[1]) if len(args) > 1 else 0
 
             if isinstance(source, (JSArray, JSTypedArray)):
+                if offset < 0 or offset + source.length > arr.length:
+                    raise JSRangeError("offset is out of bounds")
                 for i in range(source.length):
                     arr.set_index(offset + i, source.get_index(i))
             return UNDEFINED
